@@ -1,0 +1,6 @@
+//go:build !verif
+// +build !verif
+
+package messages
+
+func vhook(point string, offset uint64) {}
